@@ -861,6 +861,154 @@ fn run_prt(gen: bool, detail: bool, a: &[&str]) -> Option<String> {
     Some(out)
 }
 
+// ---------------------------------------------------------------------------------------------
+// tiny-std's OWN Read implementors on real kernel objects (whatever they override of the provided helpers),
+// judged by std doing the same on a twin descriptor / by the known content.
+//   impl file <rte|rts|rex:N> <src> <prefill-hex|-> <offset>
+//     src: tmp:<size>:<seed> | bad:<size> (not UTF-8) | trunc:<size>:<newsize> | ext:<size>:<extra> | path:<abs path>
+//   impl ustream <rte|rts> pipe:<n1,n2,..> <prefill-hex|-> 0      (a std thread feeds the pieces, then closes)
+// Output: `T <res> <len> <fnv> S <res> <len> <fnv> diff=<first differing offset|->` (T = tiny-std, S = std/known);
+//         `skip <why>` when the object cannot be opened by std either.
+fn fnv(b: &[u8]) -> u64 {
+    let mut h: u64 = 0xcbf29ce484222325;
+    for x in b {
+        h ^= *x as u64;
+        h = h.wrapping_mul(0x100000001b3);
+    }
+    h
+}
+
+fn impl_line(tr: &str, tb: &[u8], sr: &str, sb: &[u8]) -> String {
+    let d = tb.iter().zip(sb.iter()).position(|(a, b)| a != b).or(if tb.len() != sb.len() { Some(tb.len().min(sb.len())) } else { None });
+    format!("T {} {} {:016x} S {} {} {:016x} diff={}", tr, tb.len(), fnv(tb), sr, sb.len(), fnv(sb), d.map_or("-".to_string(), |x| x.to_string()))
+}
+
+fn run_impl(a: &[&str]) -> Option<String> {
+    use std::io::{Read as SRead, Seek, SeekFrom, Write as SWrite};
+    use std::os::fd::IntoRawFd;
+    static CTR: std::sync::atomic::AtomicUsize = std::sync::atomic::AtomicUsize::new(0);
+    if a.len() != 5 {
+        return None;
+    }
+    let (ty, op, src, pre, off) = (a[0], a[1], a[2], a[3], a[4].parse::<u64>().ok()?);
+    let prefill = if pre == "-" { Vec::new() } else { unhex(pre)? };
+    let n = CTR.fetch_add(1, std::sync::atomic::Ordering::SeqCst);
+    let tmp = std::env::temp_dir().join(format!("c15impl.{}.{}", std::process::id(), n));
+    let sp: Vec<&str> = src.splitn(2, ':').collect();
+    if sp.len() != 2 {
+        return None;
+    }
+    if ty == "ustream" {
+        if sp[0] != "pipe" || off != 0 || !(op == "rte" || op == "rts") {
+            return None;
+        }
+        let sizes: Vec<usize> = sp[1].split(',').map(|x| x.parse().ok()).collect::<Option<Vec<_>>>()?;
+        let total: usize = sizes.iter().sum();
+        let content = gen_bytes(total, n % 89).into_bytes();
+        let lst = std::os::unix::net::UnixListener::bind(&tmp).ok()?;
+        let c2 = content.clone();
+        let th = std::thread::spawn(move || {
+            let (mut s, _) = lst.accept().unwrap();
+            let mut o = 0;
+            for k in sizes {
+                s.write_all(&c2[o..o + k]).unwrap();
+                o += k;
+                std::thread::sleep(std::time::Duration::from_millis(2));
+            }
+        });
+        let ps = format!("{}\0", tmp.display());
+        let us = rusl::string::unix_str::UnixStr::try_from_str(&ps).ok()?;
+        let mut st = match tiny_std::net::UnixStream::connect(us) {
+            Ok(x) => x,
+            Err(_) => return Some("skip connect".into()),
+        };
+        let mut exp = prefill.clone();
+        exp.extend_from_slice(&content);
+        let out = if op == "rts" {
+            let mut t = String::from_utf8(prefill.clone()).ok()?;
+            let r = st.read_to_string(&mut t);
+            impl_line(&r.map_or("err".to_string(), |k| format!("ok{}", k)), t.as_bytes(), &format!("ok{}", total), &exp)
+        } else {
+            let mut t = prefill.clone();
+            let r = st.read_to_end(&mut t);
+            impl_line(&r.map_or("err".to_string(), |k| format!("ok{}", k)), &t, &format!("ok{}", total), &exp)
+        };
+        th.join().ok();
+        let _ = std::fs::remove_file(&tmp);
+        return Some(out);
+    }
+    if ty != "file" {
+        return None;
+    }
+    let mut cleanup = false;
+    let path: std::path::PathBuf = match sp[0] {
+        "path" => std::path::PathBuf::from(sp[1]),
+        "tmp" | "bad" | "trunc" | "ext" => {
+            let q: Vec<usize> = sp[1].split(':').map(|x| x.parse().ok()).collect::<Option<Vec<_>>>()?;
+            let size = *q.first()?;
+            let mut content = gen_bytes(size, q.get(1).copied().unwrap_or(7) % 89).into_bytes();
+            if sp[0] == "bad" && size > 0 {
+                let i = size / 2;
+                content[i] = 0xff;
+            }
+            std::fs::write(&tmp, &content).ok()?;
+            cleanup = true;
+            tmp.clone()
+        }
+        _ => return None,
+    };
+    let (mut f1, mut f2) = match (std::fs::File::open(&path), std::fs::File::open(&path)) {
+        (Ok(x), Ok(y)) => (x, y),
+        _ => return Some("skip open".into()),
+    };
+    if off > 0 && (f1.seek(SeekFrom::Start(off)).is_err() || f2.seek(SeekFrom::Start(off)).is_err()) {
+        return Some("skip seek".into());
+    }
+    // another descriptor changes the size between open and read
+    if sp[0] == "trunc" || sp[0] == "ext" {
+        let q: Vec<u64> = sp[1].split(':').map(|x| x.parse().ok()).collect::<Option<Vec<_>>>()?;
+        let mut w = std::fs::OpenOptions::new().write(true).append(sp[0] == "ext").open(&path).ok()?;
+        if sp[0] == "trunc" {
+            w.set_len(*q.get(1)?).ok()?;
+        } else {
+            w.write_all(gen_bytes(*q.get(1)? as usize, 3).as_bytes()).ok()?;
+        }
+    }
+    let fd = rusl::platform::Fd::try_new(f1.into_raw_fd()).ok()?;
+    let mut tf = unsafe { tiny_std::fs::File::from_raw_fd(fd) };
+    let show_s = |r: &std::io::Result<usize>| r.as_ref().map_or("err".to_string(), |k| format!("ok{}", k));
+    let out = if op == "rte" {
+        let (mut t, mut sv) = (prefill.clone(), prefill.clone());
+        let r = catch_unwind(AssertUnwindSafe(|| tf.read_to_end(&mut t)));
+        let rs = f2.read_to_end(&mut sv);
+        let tr = match r { Ok(Ok(k)) => format!("ok{}", k), Ok(Err(_)) => "err".to_string(), Err(_) => "panic".to_string() };
+        // on an error std keeps what was read; only compare the buffers when both succeeded or both failed
+        impl_line(&tr, &t, &show_s(&rs), &sv)
+    } else if op == "rts" {
+        let mut t = String::from_utf8(prefill.clone()).ok()?;
+        let mut sv = t.clone();
+        let r = catch_unwind(AssertUnwindSafe(|| tf.read_to_string(&mut t)));
+        let rs = f2.read_to_string(&mut sv);
+        let tr = match r { Ok(Ok(k)) => format!("ok{}", k), Ok(Err(_)) => "err".to_string(), Err(_) => "panic".to_string() };
+        impl_line(&tr, t.as_bytes(), &show_s(&rs), sv.as_bytes())
+    } else if let Some(k) = op.strip_prefix("rex:") {
+        let k: usize = k.parse().ok()?;
+        let (mut t, mut sv) = (vec![0xCCu8; k], vec![0xCCu8; k]);
+        let r = catch_unwind(AssertUnwindSafe(|| tf.read_exact(&mut t)));
+        let rs = f2.read_exact(&mut sv);
+        let tr = match r { Ok(Ok(())) => "ok".to_string(), Ok(Err(_)) => "err".to_string(), Err(_) => "panic".to_string() };
+        let sr = if rs.is_ok() { "ok" } else { "err" };
+        if tr == "ok" && sr == "ok" { impl_line(&tr, &t, sr, &sv) } else { impl_line(&tr, &[], sr, &[]) }
+    } else {
+        return None;
+    };
+    drop(tf);
+    if cleanup {
+        let _ = std::fs::remove_file(&tmp);
+    }
+    Some(out)
+}
+
 fn main() {
     std::panic::set_hook(Box::new(|_| {}));
     let detail = std::env::args().any(|a| a == "--detail");
@@ -884,6 +1032,7 @@ fn main() {
                 "wall" => run_wall(gen, detail, &w[1..]),
                 "wfmt" => run_wfmt(gen, detail, &w[1..]),
                 "prt" => run_prt(gen, detail, &w[1..]),
+                "impl" => run_impl(&w[1..]),
                 _ => None,
             }
         };
